@@ -85,12 +85,12 @@ func phasesFor(prop, tier string, workers int) []phase {
 		return []phase{{"history-search", false, workers, 125000, 600}, {"history-search-race", true, workers, 20000, 600}}
 	case "C06":
 		if q {
-			return []phase{{"schedule-search-race", true, workers, 260, 70}, {"schedule-search", false, workers, 260, 40}}
+			return []phase{{"schedule-search-race", true, workers, 500, 70}, {"schedule-search", false, workers, 600, 40}}
 		}
 		return []phase{{"schedule-search-race", true, workers, 100000, 900}, {"schedule-search", false, workers, 100000, 300}}
 	case "C14":
 		if q {
-			return []phase{{"extend-histories", false, workers, 320, 60}, {"extend-histories-race", true, workers, 60, 60}}
+			return []phase{{"extend-histories", false, workers, 600, 60}, {"extend-histories-race", true, workers, 100, 60}}
 		}
 		return []phase{{"extend-histories", false, workers, 16000, 600}, {"extend-histories-race", true, workers, 3000, 300}}
 	}
